@@ -1190,6 +1190,11 @@ def _get_cached_arg_spec(fn: Callable[..., Any]) -> inspect.FullArgSpec:
     except TypeError:
       # `fn` might be a callable object.
       arg_spec = inspect.getfullargspec(unwrapped.__call__)
+    if inspect.ismethod(unwrapped) or not (
+        inspect.isroutine(unwrapped) or inspect.isclass(unwrapped) or
+        isinstance(unwrapped, functools.partial)):
+      # A bound method or a callable object: the receiver is already supplied.
+      arg_spec = arg_spec._replace(args=arg_spec.args[1:])
     _ARG_SPEC_CACHE[fn] = arg_spec
   return arg_spec
 
